@@ -38,7 +38,8 @@ VARIANTS = [
     B("max-period-complex", IM, "    max_index = np.argmax(np.abs(asig.fa_spectrum))\n", "    max_index = np.argmax(asig.fa_spectrum)\n", "R-CPLX-ORDER"),
     B("max-period-real-part", IM, "    max_index = np.argmax(np.abs(asig.fa_spectrum))\n", "    max_index = np.argmax(np.real(asig.fa_spectrum))\n", "R-CPLX-ORDER"),
     B("max-period-not-reciprocal", IM, "    max_period = 1. / asig.fa_frequencies[max_index]\n", "    max_period = asig.fa_frequencies[max_index]\n", "R-CPLX-ORDER"),
-    B("sort-complex-elsewhere", F, "    return np.dot(abs(asig.fa_spectrum[1:]), smooth_matrix)\n", "    return np.dot(np.sort(asig.fa_spectrum[1:]), smooth_matrix)\n", "R-CPLX-ORDER"),
+    # an ordering on complex data OUTSIDE the Fourier-spectrum functions belongs to the property anchored there (C07): C06 stays silent
+    T("sort-complex-elsewhere-is-not-C06", F, "    return np.dot(abs(asig.fa_spectrum[1:]), smooth_matrix)\n", "    return np.dot(np.sort(asig.fa_spectrum[1:]), smooth_matrix)\n"),
     # twins
     T("obj-slice-bins", S, "        self._fa_spectrum = fa[range(points)] * self.dt\n", "        self._fa_spectrum = fa[:points] * self.dt\n"),
     T("obj-floordiv", S, "        points = int(n_factor / 2)\n        self._fa_spectrum", "        points = n_factor // 2\n        self._fa_spectrum"),
